@@ -314,3 +314,33 @@ def fmt_signature(prog, body, depth=0):
     if tm is None and len(follow) == 1 and depth < 3 and follow[0] is not body:
         return fmt_signature(prog, follow[0], depth + 1)
     return tm, lh
+
+
+class Prefixed:
+    """a view of the report that files another checker's rule instances under this property"""
+
+    def __init__(self, rep, pre):
+        object.__setattr__(self, '_rep', rep)
+        object.__setattr__(self, '_pre', pre)
+
+    def __getattr__(self, n):
+        return getattr(self._rep, n)
+
+    def __setattr__(self, n, v):
+        if n in ('explanation', 'trusted'):
+            return          # keep C03's own texts
+        setattr(self._rep, n, v)
+
+    def ok(self, rule, key, *a, **kw):
+        return self._rep.ok(self._pre + rule, key, *a, **kw)
+
+    def fail(self, rule, key, *a, **kw):
+        return self._rep.fail(self._pre + rule, key, *a, **kw)
+
+    def check(self, cond, rule, key, *a, **kw):
+        return self._rep.check(cond, self._pre + rule, key, *a, **kw)
+
+    def absorb_engine(self, E, rule='O1-panic-freedom', **kw):
+        return self._rep.absorb_engine(E, rule=self._pre + rule, **kw)
+
+
